@@ -28,13 +28,16 @@ def gen(args) -> list:
 
     rnd = random.Random(seed)
     cals = [CalendarSystem.for_id(c) for c in CalendarSystem.ids]
-    cults = [None, None] + textgen.cultures(rnd, 6)
+    cults = [None, None] + textgen.cultures(rnd, 6) + [textgen.synthetic_culture(rnd) for _ in range(4)]
     signal.signal(signal.SIGALRM, _alarm)
     evs = []
     todo = [(rnd.choice(TYPES), textgen.random_pattern(rnd.choice(TYPES), rnd)) for _ in range(n)]
     todo = [(t, textgen.random_pattern(t, rnd)) for t, _ in todo] + [(rnd.choice(TYPES), s) for s in small_texts]
-    for typ, ptext in todo:
-        culture = rnd.choice(cults)
+    # every standard pattern letter under every synthetic culture (their expansion is the culture's own pattern text)
+    forced = [(t, letter, c) for c in cults[-4:] for t in TYPES for letter in textgen.STANDARD[t]]
+    todo = [(t, p, None) for t, p in todo] + forced
+    for typ, ptext, forced_culture in todo:
+        culture = forced_culture if forced_culture is not None else rnd.choice(cults)
         ev = {"op": "pattern", "type": typ, "pattern": cps(ptext), "culture": culture.name if culture is not None else "", "parses": []}
         signal.alarm(10)
         try:
@@ -117,6 +120,7 @@ def run(ctx: Ctx):
     total = 6000 if q else 150000
     per = total // 16
     sl = [small[k::16] for k in range(16)]
+    textgen.culture_classes()   # computed once here, inherited by the forked workers
     parts = parallel_map(gen, [(ctx.seed * 41 + k, per, sl[k]) for k in range(16)])
     npar = sum(len(e["parses"]) for p in parts for e in p)
     created = {}
